@@ -123,6 +123,10 @@ class HomogeneousTransformApply:
                     for ps in self.POINTS:
                         for vectors in (False, True):
                             yield {"D": D, "form": form, "batch": tb, "points": ps, "vectors": vectors}
+            # integer-valued point coordinates (voxel indices) with a real transformation: the same real map
+            for form in SA.FORMS:
+                for vectors in (False, True):
+                    yield {"D": D, "form": form, "batch": "1", "points": "1MD", "vectors": vectors, "dtype": "int64"}
 
     def run(self, case, K):
         from deepali.core.linalg import homogeneous_transform
@@ -133,8 +137,12 @@ class HomogeneousTransformApply:
         pshape = self.POINTS[case["points"]](D, 2 if case["points"] != "1MD" else 1)
         if case["points"] in ("NMD", "NYXD") and NT == 1:
             pass
-        ep = K.reals("p", pshape)
-        p = K.tensor(ep)
+        if case.get("dtype") == "int64":
+            ep = K.ints("p", pshape, lo=-5, hi=5)
+            p = K.tensor(ep, dtype=torch.int64)
+        else:
+            ep = K.reals("p", pshape)
+            p = K.tensor(ep)
         res = K.call(homogeneous_transform, T, p, vectors=case["vectors"])
         if not K.ensure_returns(res, text="application succeeds for every accepted transformation form and point shape"):
             return
@@ -291,7 +299,7 @@ class EulerRotationMatrix:
                 K.ensure_eq(f"orthogonal[{n}]", SG.matmul(M.T, M), SG.eye(D), text=Q_EULER + " (R^T R = I)", kind=kind)
                 det = SA.det3(M) if D == 3 else E.sub(E.mul(M[0, 0], M[1, 1]), E.mul(M[0, 1], M[1, 0]))
                 K.ensure_eq(f"det[{n}]", det, 1, text=Q_EULER + " (det = 1)", kind=kind)
-        if D == 3:
+        if D == 3 and len(set(o)) > 1:  # (rotations about one axis commute: the reversed product is the same matrix)
             cs = [(E.cos(a), E.sin(a)) for a in angs[0]]
             K.ensure_eq("mustfail", g[0][:, :D], SA.euler_matrix(o[::-1], cs) if o[::-1] != o else SA.euler_matrix(o, cs[::-1]),
                         text="elementary rotations multiplied in the reverse order", must_fail=True)
@@ -399,3 +407,64 @@ class RotationConversions:
             back = K.call(LA.angle_axis_to_rotation_matrix, a3)
             if K.ensure_returns(back):
                 K.ensure_eq("q->aa->R", back.reshape(3, 3), Rref, text=t + " [quaternion -> axis-angle -> matrix]")
+
+
+@register
+class EulerAnglesRoundTrip:
+    """Bounded (acos / atan2 branches): Euler angles -> matrix -> Euler angles -> matrix is the same rotation for the orders
+    for which the extraction is implemented (2-D, ZXZ, XZX), over the full angle range; and the same through the
+    transforms' setters/getters (EulerRotation.matrix_(R).matrix(), QuaternionRotation.matrix_(R).matrix())."""
+
+    target = "deepali.core.affine:euler_rotation_angles"
+    properties = ("C08",)
+    symbolic = False
+    n_bounded = {"quick": 20, "thorough": 200}
+    tol = 2e-4
+
+    def cases(self, tier):
+        yield {"D": 2, "order": None}
+        for order in ("ZXZ", "XZX", "Rz o Rx o Rz"):
+            yield {"D": 3, "order": order}
+        for model in ("EulerRotation", "QuaternionRotation"):
+            yield {"D": 3, "order": "ZXZ", "setter": model}
+
+    def run(self, case, K):
+        import math
+
+        from deepali.core.affine import euler_rotation_angles, euler_rotation_matrix
+
+        t = "C08: all conversions between Euler angles, quaternions, axis-angle vectors and matrices (including the transforms' parameter getters/setters) round-trip to the same rotation"
+        r = K.rng
+        D = case["D"]
+        na = 1 if D == 2 else 3
+        ang = [[r.uniform(-math.pi + 1e-3, math.pi - 1e-3) for _ in range(na)] for _ in range(2)]
+        if D == 3:
+            # keep the middle angle away from the gimbal-lock values 0 and pi, where the other two are not unique
+            for row in ang:
+                while abs(math.sin(row[1])) < 0.05:
+                    row[1] = r.uniform(-math.pi, math.pi)
+        K.env["angles"] = ang
+        a = torch.tensor(ang, dtype=torch.float64)
+        R = K.call(euler_rotation_matrix, a, order=case["order"])
+        if not K.ensure_returns(R):
+            return
+        if "setter" in case:
+            import deepali.spatial as sp
+            from deepali.core.grid import Grid
+
+            m = getattr(sp, case["setter"])(Grid(size=(4, 4, 4)), params=torch.zeros(2, 3 if case["setter"] == "EulerRotation" else 4))
+            res = K.call(m.matrix_, R.float(), modifies=[p for _, p in list(m.named_parameters()) + list(m.named_buffers())])
+            if K.ensure_returns(res, text=t + f" [{case['setter']}.matrix_()]"):
+                back = K.call(m.matrix)
+                if K.ensure_returns(back):
+                    K.ensure_eq("setter-getter", back[..., :3, :3].double(), R.numpy(), text=t + f" [{case['setter']}: matrix_(R) then matrix()]")
+            return
+        b = K.call(euler_rotation_angles, R, order=case["order"])
+        if not K.ensure_returns(b, text=t + " [angles from matrix]"):
+            return
+        K.ensure("shape", E.bconst(tuple(b.shape) == tuple(a.shape)), text=t + " [the extracted angles can be passed back: same shape as the angles given]")
+        if tuple(b.shape) != tuple(a.shape):
+            return
+        R2 = K.call(euler_rotation_matrix, b, order=case["order"])
+        if K.ensure_returns(R2):
+            K.ensure_eq("angles->R->angles->R", R2, R.numpy(), text=t + " [Euler angles -> matrix -> Euler angles -> matrix]")
